@@ -119,6 +119,10 @@ class Recorder(protocol.Protocol):
     def connectionMade(self):
         self.log.append(("made",))
         self.world.app_events.append((self.side, self.label, "made"))
+        mh = getattr(self.world, "made_hooks", {}).get((self.side, self.label))
+        if mh is not None:
+            # an application that acts on its transport from inside connectionMade() (portforward pauses there)
+            mh(self)
         hook = getattr(self.world, "on_made", None)
         if hook is not None and not self.world._building_inbound:
             # an application that talks first: it writes (and maybe closes) from inside connectionMade()
